@@ -327,6 +327,8 @@ class PeerConnection:
         self._interrupt_fileno: int = interrupt_fileno
         self._last_msg: int = 0
         self._last_read: int = 0
+        # timestamp of the start of the wait for the peer's CER or CEA
+        self._ce_wait_start: int = int(time.time())
         # timestamp of last DWR sent, cleared after DWA
         self._last_dwr: int = 0
         self._read_buffer: bytes = b""
@@ -465,6 +467,17 @@ class PeerConnection:
         if not self.is_waiting_for_dwa:
             return 0
         return int(time.time()) - self._last_dwr
+
+    @property
+    def ce_wait_time(self) -> int:
+        """Seconds spent waiting for the peer's CER (since the connection
+        was accepted) or CEA (since the connection was established and the
+        CER sent). Other received bytes do not restart it."""
+        return int(time.time()) - self._ce_wait_start
+
+    def reset_ce_wait(self):
+        """Mark the start of the wait for the peer's CER or CEA."""
+        self._ce_wait_start = int(time.time())
 
     @property
     def last_read_since(self) -> int:
